@@ -291,6 +291,10 @@ _SYNC_RULE = ("pairs of (local CLI repository on badger+SQLite, remote repositor
               "non-trivial = remote-ahead, diverged or unrelated; distinct = distinct (op, input)")
 
 PROPS["C09"] = dict(
+    registered=True,
+    level_text="Kernel-checked composition of the C08 finder model and the C07 transfer model: for any history, any acknowledged commons held by the receiver (i.e. however many negotiation rounds produced them), any depth, table selection and packfile size, every object the sender streams is accepted and afterwards the receiver holds EVERY ancestor of the want and loses nothing (C09_transfer_closed); the list is acceptable at every position; "
+               "when the want is already an acknowledged common commit nothing is listed (idempotence of the selection). Runtime side: the real CLI (`wrgl fetch/push/pull`) is run against a reference server on generated repository pairs; the Lean driver evaluates the closure, depth, nothing-lost, object-identity and repeat-changes-nothing clauses on both repositories' observed state.",
+    level_note=LEVEL_NOTE + "PARTIAL: one want per theorem; the negotiation rounds are abstracted to 'acknowledged commons are commits the receiver holds'; the HTTP sessions (upload_pack_session.go / receive_pack_session.go), gzip, cookies and retries are exercised end to end but not modelled message by message; the reference server assembled in harness/refserver.go from the repository's own finder/sender/receiver is trusted harness code.",
     lean_modules=["WrglModel.Props.C09"],
     quick_n=64, thorough_n=800, rule=_SYNC_RULE,
     modelled="the closure a successful fetch / push must establish, composed from the C08 finder and C07 transfer models; upload_pack_session.go / receive_pack_session.go are exercised end to end, not modelled message by message",
